@@ -1463,9 +1463,13 @@ class Assembler:
                 else:
                     cn.add(nm)
         call_names = sorted(cn)
+        call_counts = {}
+        for k in range(len(bsig) - 1):
+            if btoks[bsig[k]][0] == 'ident' and btoks[bsig[k + 1]][1] == '(':
+                call_counts[btoks[bsig[k]][1]] = call_counts.get(btoks[bsig[k]][1], 0) + 1
         self.functions.append({'key': key, 'name': c.name, 'ctx': c.ctx, 'src': '%s:%d' % (c.src, fn_line),
                                'loops': n_loops, 'loops_with_invariant': n_annotated,
-                               'closures': n_clos, 'closures_annotated': n_clos_ann, 'calls': call_names,
+                               'closures': n_clos, 'closures_annotated': n_clos_ann, 'calls': call_names, 'call_counts': call_counts,
                                'clauses': [{'id': x.cid, 'tags': x.tags, 'kind': x.kind} for x in c.clauses] +
                                           [{'id': x.cid, 'tags': x.tags, 'kind': 'loop-' + x.kind} for cls in c.loops.values() for x in cls],
                                'safety_tags': c.safety_tags})
